@@ -235,9 +235,13 @@ func (k Keeper) IBCCoinToBaseCoin(ctx context.Context, coin sdk.Coin, holder sdk
 	if !strings.HasPrefix(coin.Denom, ibctransfertypes.DenomPrefix+"/") {
 		return coin, nil
 	}
-	baseDenom, err := k.ManyToOne(ctx, coin.Denom)
+	// a voucher that is registered as an alias of a base denom is that base denom's coin, also when the
+	// transfer module has written bank metadata for the voucher itself (it does so for every denom trace)
+	baseDenom, err := k.GetBaseDenom(ctx, coin.Denom)
 	if err != nil {
-		return sdk.Coin{}, err
+		if baseDenom, err = k.ManyToOne(ctx, coin.Denom); err != nil {
+			return sdk.Coin{}, err
+		}
 	}
 	baseCoin := sdk.NewCoin(baseDenom, coin.Amount)
 	if err = k.bankKeeper.SendCoinsFromAccountToModule(ctx, holder, ibctransfertypes.ModuleName, sdk.NewCoins(coin)); err != nil {
